@@ -49,6 +49,16 @@ CHECKS = {
    text='Theorems C15_bump_spec, C15_never_invalid (closed): bump succeeds iff end+n does not overflow and is an in-range boundary, otherwise panics leaving the position unchanged; a valid position stays valid. C15_old_release_refuted / C15_old_panic_corrupts: the code as it was is refuted by vm_compute witnesses (finding F3, fixed). Real bump under catch_unwind on every position of small str/byte sources x n incl. values that wrap onto every in-range position, in debug/release x default/forbid_unsafe builds, against the model evaluated in coqc.',
    design='DESIGN.md sections 7 (C15), 9 (F3)',
    note='The model of bump is hand-written (8 lines) and tied by the grid; slice() is only called on states the spec calls valid (no sanitizer).'),
+ 'C04': dict(
+   technique='Coq proof (UTF-8 automaton product; induction over input and over the lexing loop) + kernel-extracted certificates per definition and per independently compiled subpattern + differential run',
+   text='Theorems C04_match_ends_on_boundary, C04_bnd_is_char_boundary, C04_spans_on_boundaries, C04_fb_str_boundary (closed): under utf8_ok (complete exploration of DFA x UTF-8 validity automaton, validated hint), every match starting on a char boundary of valid UTF-8 ends on one; the automaton notion coincides with str::is_char_boundary; every boundary of every token, error, skipped region and the final span produced by the lexing loop is a char boundary (for callbacks that bump onto boundaries, as Lexer::bump enforces). Acceptance half: utf8_ok+utf8_strict_ok decide "matches only valid UTF-8" on the captured DFA of every accepted str-mode definition and on the independently built DFA of each of its subpatterns; curated must-reject definitions.',
+   design='DESIGN.md sections 5.3, 7 (C04)',
+   note='As C01. The UTF-8 automaton is Unicode table 3-7, hand-written (Base/Utf8.v), with its continuation-byte table proved by exhaustive vm_compute. Subpattern DFAs are built by the capture tool, not by logos.'),
+ 'C12': dict(
+   technique='Coq proof of the two per-call theorems (mode independence up to find_boundary; one-byte errors inside a character under the strictness certificate) + graph equality across modes + differential run of mode twins',
+   text='Theorems C12_next_fb_independent and C12_inside_char_error (closed): the two modes run the same graph and one next() call from the same position yields the same skipped regions and Ok item, or an error whose end is each mode\'s rounding of the same raw end; in byte mode an attempt starting inside a character of valid UTF-8 dies on its first byte (under utf8_strict_ok), so the errors cover the same bytes. Per run: captured graphs of every dual definition are equal across modes; compiled twins agree on Ok tokens, spans and the set of error bytes on all valid-UTF-8 probes; acceptance pairs (rejected in str mode, accepted with utf8 = false).',
+   design='DESIGN.md section 7 (C12)',
+   note='Stream-level agreement follows from the per-call theorems by iteration (not a Coq theorem); compared directly by K2.'),
 }
 
 def main():
